@@ -74,6 +74,8 @@ def explore(pid, tier, seed, nproc=None):
     from mc.stats import Stats
 
     mod = load(pid)
+    if hasattr(mod, "custom_explore"):
+        return mod, mod.custom_explore(tier, seed)
     groups = list(mod.groups(tier, seed))
     total = Stats()
     nproc = nproc or int(os.environ.get("VERIF_PROCS", "16"))
